@@ -20,6 +20,7 @@ type evalCtx struct {
 	bound  []string
 	region *State // state at the last lock acquisition (for old@region)
 	head   *State // state at the head of the enclosing loop (for atHead)
+	assuming bool // the clause is being assumed (not proved): reference quantifiers are not restricted
 }
 
 func (c *evalCtx) child() *evalCtx {
@@ -460,6 +461,18 @@ func (fr *Frame) evalQuant(e *CExpr, ctx *evalCtx) *Val {
 		decls = append(decls, fmt.Sprintf("(%s %s)", bn, s))
 		if _, _, ok := intRange(t); ok && isUnsigned(t) {
 			wf = append(wf, app("<=", "0", bn))
+		}
+		switch t.Underlying().(type) {
+		case *types.Pointer, *types.Map:
+			// quantification over references ranges over the objects that
+			// existed in the pre-state (two-state clauses) / are allocated
+			bound := ctx.st.alloc
+			if ctx.old != nil {
+				bound = ctx.old.alloc
+			}
+			if !ctx.assuming {
+				wf = append(wf, and(app("<=", "0", bn), app("<=", bn, bound)))
+			}
 		}
 	}
 	body := fr.eval1(e.Args[0], c)
